@@ -50,6 +50,9 @@ def _nat_task(args):
         if kind == 'unit':
             _, oid, ci, tier, seed = args
             return engine.run_native_unit(oid, ci, tier, seed)
+        if kind == 'chain':
+            _, oid, ci, n, seed = args
+            return engine.run_native_chain(oid, ci, n, seed)
         if kind == 'once':
             _, oid, ci, inputs = args
             return engine.run_native_once(oid, ci, inputs, None)
@@ -96,9 +99,10 @@ def load_known():
 
 def unit_name(r):
     case = r.get('case') or {}
+    tag = '#history' if r.get('chain') else ''
     if not case:
-        return r['oid']
-    return r['oid'] + '[' + ','.join(f'{k}={v}' for k, v in case.items()) + ']'
+        return r['oid'] + tag
+    return r['oid'] + '[' + ','.join(f'{k}={v}' for k, v in case.items()) + ']' + tag
 
 
 def main(argv):
@@ -120,6 +124,13 @@ def main(argv):
     ctxm = mp.get_context('fork')
     sym_units = [(o.id, i, tier) for o in obs if o.kind == 'proof' for i in range(len(o.cases))]
     nat_units = [('unit', o.id, i, tier, seed) for o in obs if o.kind == 'bounded' for i in range(len(o.cases))]
+    # history stand-ins: chained native executions (state carried between calls) for up to three cases of every deductive obligation
+    chain_n = int(os.environ.get('VERIF_CHAIN', '12' if tier == 'quick' else '40'))
+    if chain_n:
+        for o in obs:
+            if o.kind == 'proof':
+                for i in sorted({0, len(o.cases) // 2, len(o.cases) - 1}):
+                    nat_units.append(('chain', o.id, i, chain_n, seed))
     sym_results, nat_results = [], []
     fault = []
 
@@ -322,7 +333,8 @@ def write_evidence(prop, tier, seed, obs, sym_results, nat_results, conf, violat
         o = engine.REGISTRY[r['oid']]
         bounded.append({'obligation': unit_name(r), 'status': r['status'], 'evaluations': r.get('evaluations', 0),
                         'distinct_inputs': r.get('distinct', 0), 'skipped_by_precondition': r.get('skipped', 0),
-                        'bound': o.descr, 'covers': r.get('covers', [])})
+                        'bound': ('history stand-in of a deductive obligation: native executions chained in one process, every second one re-using a random half of the previous inputs; ' if r.get('chain') else '') + o.descr,
+                        'covers': r.get('covers', [])})
     undec = [{'obligation': unit_name(r), 'reason': (r['undecided'][0]['reason'] if r.get('undecided') else '')[:300],
               'standin': r.get('standin')} for r in sym_results if r['status'] == 'UNDECIDED']
     samples = []
